@@ -204,7 +204,7 @@ mutual
 def canon (d : Nat) : Node → Bool
   | .nil m => inv m
   | .bool m _ => inv m
-  | .int m v => inv m && decide (0 ≤ v)
+  | .int m v => inv m && decide (0 ≤ v ∧ v < 9223372036854775808)
   | .float m _ => inv m
   | .str m _ => inv m
   | .ident m n ns => inv m && !ns && !reserved n
